@@ -35,7 +35,25 @@ func Compare(t *Transaction, t2 *Transaction) compare.Order {
 			return o
 		}
 	}
-	return compare.Ordered(len(t.Postings), len(t2.Postings))
+	if o := compare.Ordered(len(t.Postings), len(t2.Postings)); o != compare.Equal {
+		return o
+	}
+	// transactions which differ only in their performance targets
+	for i := 0; i < len(t.Targets) && i < len(t2.Targets); i++ {
+		if o := commodity.Compare(t.Targets[i], t2.Targets[i]); o != compare.Equal {
+			return o
+		}
+	}
+	if o := compare.Ordered(len(t.Targets), len(t2.Targets)); o != compare.Equal {
+		return o
+	}
+	if t.Targets == nil && t2.Targets != nil {
+		return compare.Smaller
+	}
+	if t.Targets != nil && t2.Targets == nil {
+		return compare.Greater
+	}
+	return compare.Equal
 }
 
 // Builder builds transactions.
